@@ -4,6 +4,7 @@ package api
 // handlePostConfig with raft replaced by recording stubs.
 
 import (
+	"strings"
 	"time"
 
 	"github.com/robustirc/robustirc/internal/robust"
@@ -22,6 +23,24 @@ func vAPI() (*HTTP, []vSess) {
 	return &HTTP{ircServerUnlocked: i, network: "robustirc.net", getMessagesRequests: make(map[string]GetMessagesStats)}, sess
 }
 
+// vBody is the posted text: an arbitrary string of at most "data" bytes, or
+// (parameter "filler" > 0) an arbitrary prefix of fixed small length, then
+// that many harmless bytes, then an arbitrary suffix, so that texts longer
+// than one IRC line are covered while only the interesting bytes are symbolic.
+func vBody() string {
+	n := verifParam("data", 6)
+	filler := verifParam("filler", 0)
+	if filler == 0 {
+		return nondetString(n)
+	}
+	k := verifCase(n + 1)
+	pre := make([]byte, k)
+	for j := range pre {
+		pre[j] = nondetU8()
+	}
+	return string(pre) + strings.Repeat("a", filler) + nondetString(n)
+}
+
 func verifHarness_C10_post() { vPost(false) }
 
 // C15 link (1): whatever JSON string is posted, the proposed line is a single line.
@@ -38,7 +57,7 @@ func vPost(onlyClean bool) {
 		rm := &robust.Message{Id: robust.Id{Id: nondetU64()}, Session: s.id, Type: robust.IRCFromClient, Data: "PING x", ClientMessageId: marker, UnixNano: 1}
 		verifAssume(api.ircServer().UpdateLastClientMessageID(rm) == nil)
 	}
-	data := nondetString(verifParam("data", 6))
+	data := vBody()
 	cmid := nondetU64()
 	valid := nondetBool()
 	r := vRequest("POST", "/robustirc/v1/x/message")
@@ -49,6 +68,7 @@ func vPost(onlyClean bool) {
 	api.handlePostMessage(w, r, s.id)
 
 	if onlyClean {
+		verifAssert(len(vProposals) <= 1, "at-most-one-proposal")
 		for _, p := range vProposals {
 			verifAssert(verifClean(p.Data), "posted-line-is-cut-at-cr-lf-nul")
 		}
@@ -80,7 +100,7 @@ func vPost(onlyClean bool) {
 func verifHarness_C15_delete() {
 	api, sess := vAPI()
 	s := sess[0]
-	quit := nondetString(verifParam("data", 6))
+	quit := vBody()
 	r := vRequest("DELETE", "/robustirc/v1/x")
 	r.Body = verifJSONBody(map[string]interface{}{"Quitmessage": quit}, true)
 	w := &vWriter{hdr: make(map[string][]string)}
